@@ -49,10 +49,13 @@ Definition op_ok (s : cbuf) (o : op) : Prop :=
   | OSwap i j => in_usize i /\ in_usize j
   | OExtend xs | OExtendRef xs | OExtendFromSlice xs | OFromArray xs | OFromIter xs
   | OEqSlice _ xs | OWrite _ xs | ORead _ xs => zlen xs < W
-  | ODrain sb eb _ _ => bound_ok sb /\ bound_ok eb
-  | ORange sb eb script | ORangeMut sb eb script =>
+  | ODrain sb eb _ _ | ODrainDebug sb eb _ => bound_ok sb /\ bound_ok eb
+  | ORange sb eb script | ORangeMut sb eb script
+  | OIterDebug sb eb script | OIterMutDebug sb eb script =>
     (bound_ok sb /\ bound_ok eb) /\ clone_safe script = true
-  | OIter script | OIterMut script => clone_safe script = true
+  | OIter script | OIterMut script
+  | OIterDefault script | OIterMutDefault script | ORefIntoIter script =>
+    clone_safe script = true
   | OCloneFrom other | OCmp other => WF other /\ cap other = cap s
   | OEq other | OPartialCmp other => WF other
   | OConsume _ k => in_usize k
